@@ -294,7 +294,10 @@ func (p *Packer) packWalkFn(root, src, dst string, tarW *tar.Writer, meta *Meta,
 					}
 				}
 				chain := append(append([]string{}, derefChain...), resolved.absTarget)
-				return filepath.Walk(resolved.absTarget, p.packWalkFn(root, resolved.absTarget, path, tarW, meta, ignoreRules, chain))
+				// The target's entries are named below this link's own position
+				// in the archive, which differs from its path on disk when the
+				// link itself sits inside a dereferenced directory.
+				return filepath.Walk(resolved.absTarget, p.packWalkFn(root, resolved.absTarget, filepath.Join(root, subpath), tarW, meta, ignoreRules, chain))
 			}
 
 			// Only regular files can be copied into the archive. Anything else
